@@ -7,6 +7,7 @@ With a sixth element "t" (tight) the core is the span of the genes only ([cs*SLO
 are separated by a few bases instead of touching and extents end inside slots (the slot-aligned universe has no small gaps).
 """
 from antismash.common.secmet.features import Protocluster, SubRegion
+from antismash.common.secmet.features.protocluster import SideloadedProtocluster
 from antismash.common.secmet.locations import FeatureLocation as F
 from antismash.common.secmet.qualifiers import GeneFunction
 
@@ -41,7 +42,10 @@ def default_core_functions(nslots):
 def make_protocluster(L, circular, spec):
     """-> Protocluster or None when the spec does not fit the topology"""
     cs, ce, nl, nr, product = spec[:5]
-    tight = len(spec) > 5 and spec[5] == "t"
+    flags = spec[5] if len(spec) > 5 else ""
+    tight = "t" in flags
+    # "s": a sideloaded protocluster, whose locations carry no strand
+    strand = None if "s" in flags else 1
     nslots = L // SLOT
     if not circular and ce < cs:
         return None
@@ -50,14 +54,20 @@ def make_protocluster(L, circular, spec):
     if tight:
         clen -= 3
         cstart += 1
-    core = ring_loc(cstart, clen, L, 1)
+    core = ring_loc(cstart, clen, L, strand)
     if circular:
         total = clen + (nl + nr) * SLOT
         if total >= L:
-            return None
-        loc = ring_loc(cstart - nl * SLOT, total, L, 1)
+            if nl < 90:
+                return None
+            # neighbourhoods larger than the record (nl = nr >= 90): the extent is clipped to the whole record, as on a line
+            loc = F(0, L, strand)
+        else:
+            loc = ring_loc(cstart - nl * SLOT, total, L, strand)
     else:
-        loc = F(max(0, cstart - nl * SLOT), min(L, cstart + clen + nr * SLOT), 1)
+        loc = F(max(0, cstart - nl * SLOT), min(L, cstart + clen + nr * SLOT), strand)
+    if strand is None:
+        return SideloadedProtocluster(core, loc, "side", product, neighbourhood_range=max(nl, nr, 1) * SLOT)
     return Protocluster(core, loc, "tool", product, SLOT, max(nl, nr) * SLOT, "rule", "cat")
 
 
